@@ -6,6 +6,7 @@ open Evo
   `ape rel n ref-poses… n est-poses…` → `OK core…` | `E_METRICS:len` | `E_METRICS:rel` | `E_GEOMETRY`
        (core tokens: `S:r` = √r, `A:c:s2:rad|deg` = atan2(√s2, c))
   `margin n ref… n est…`              → smallest distance of an `is_so3` guard quantity from its threshold
+  `relinfo <cli choice>`              → `PoseRelation value|APE unit|RPE unit` (table tie)
   `plan <15 option tokens>`           → `step | step | …` or `E_FILTER` -/
 def handle (op : String) (args : List String) : Option String :=
   match op, args with
@@ -23,6 +24,9 @@ def handle (op : String) (args : List String) : Option String :=
   | "plan", rest => do
       let (o, _) ← readCommonOpts rest
       some (showPlan (apePlan o))
+  | "relinfo", [name] => do
+      let rel ← PoseRelation.ofString? name
+      some (rel.value ++ "|" ++ rel.apeUnit ++ "|" ++ rel.rpeUnit)
   | _, _ => none
 
 end Evo.Drv.C01
